@@ -188,7 +188,7 @@ for op in CURSOR_OPS:
                 nocell(op, 4, 3, {"C05": Q if quick else T, "C02": T, "C01": Q if (op, row, top) == ("RiOffMargin", 0, 1) else T}, geo=(row, top, bottom), optional=SMALL_OPT)
         nocell(op, 1, 1, {"C05": T}, geo=(0, 0, 0), optional=SMALL_OPT + ["missing / zero parameter", "parameter 65535"]) if False else None
         continue
-    nocell(op, 4, 3, {"C05": Q, "C02": Q if op in C02_QUICK_OPS else T, "C17": T, "C16": T, "C01": T})
+    nocell(op, 4, 3, {"C05": Q, "C02": Q if op in C02_QUICK_OPS else T, "C17": Q if op == "Decstbm" else T, "C16": T, "C01": T})
     nocell(op, 1, 1, {"C05": Q if op in ("Cup", "Decstbm") else T, "C01": Q if op in ("Cup", "Decstbm", "Cha") else T}, optional=SMALL_OPT)
     nocell(op, 5, 5, {"C05": T, "C02": T}, sb=0, alt=0)
 for op in TAB_MOVE_OPS:
